@@ -209,6 +209,7 @@ impl SubCheck for Reverse {
             prop_oneof![
                 4 => gen::ndt(),
                 2 => (proptest::sample::select(vec![i64::MAX as i128, i64::MIN as i128, 0i128]), -3_000_000_000i128..3_000_000_000).prop_map(move |(a, d)| w(a + d)),
+                2 => (-90_000_000_000_000i128..90_000_000_000_000).prop_map(move |d| w(d)),
                 1 => (0i128..3_000_000_000).prop_map(move |d| w(inst::min_inst() + d)),
                 1 => (0i128..3_000_000_000).prop_map(move |d| w(inst::max_inst() - d)),
             ]
@@ -266,7 +267,9 @@ impl SubCheck for Reverse {
             ensure_eq!(from, dt, "DateTime::<Utc>::from(SystemTime) for instant {t}");
             let to: SystemTime = call("SystemTime::from", || SystemTime::from(dt))?;
             ensure_eq!(to, st, "SystemTime::from(DateTime) for instant {t}");
-            let fo = FixedOffset::east_opt(((t % 86_399) as i32).clamp(-86_399, 86_399)).unwrap();
+            // offset derived from the instant, its sign independent of the instant's sign
+            let fo = FixedOffset::east_opt((t.rem_euclid(172_799) - 86_399) as i32).unwrap();
+            obs.nt_if(t.div_euclid(NS).abs() < 86_400, "within_a_day_of_the_epoch");
             let to2: SystemTime = call("SystemTime::from", || SystemTime::from(dt.with_timezone(&fo)))?;
             ensure_eq!(to2, st, "SystemTime::from(DateTime<FixedOffset>)");
         } else {
